@@ -34,7 +34,7 @@ TYPES = ['bytes', 'bytearray', 'memoryview', 'np.uint8']
 
 def gen(rng, tier):
     itemsize = rng.choice([1, 2, 4, 8, 12])
-    nitems = rng.choice([0, 1, 2, 3, 5, 17, 100, rng.randrange(0, 400), rng.randrange(0, 6000)])
+    nitems = rng.choice([0, 1, 2, 3, 5, 17, 100, rng.randrange(0, 400), rng.randrange(0, 6000)] + ([rng.randrange(6000, 6001 + 65536 // itemsize)] if tier == 'thorough' else []))
     nbytes = nitems * itemsize
     nframes_target = rng.choice([1, 1, 2, 3, 4, 9])
     per = max(1, -(-max(nitems, 1) // nframes_target))
